@@ -85,6 +85,7 @@ inline std::istream& operator>>(std::istream &in, type &s)
 {
     std::string val;
     in >> val;
+    amgcl::detail::reject_trailing_text(in, val);
 
     if (val == "merge")
         s = merge;
